@@ -310,6 +310,12 @@ func init() {
 			n := len(staticBlock(fields))
 			for off := 1; off < n; off++ {
 				do(c20cCase{Items: items, BodyLen: 5, Trailers: "none", Pos: 1, Split: off})
+				// the head ends in a CONTINUATION frame and a trailer section follows: it must still be read as
+				// trailers (a :status in it is malformed, regular fields are fine)
+				if off%3 == 1 || it < 0 {
+					do(c20cCase{Items: items, BodyLen: 5, Trailers: "valid", Pos: 1, Split: off})
+					do(c20cCase{Items: items, BodyLen: 0, Trailers: "pseudo", Pos: 1, Split: off})
+				}
 			}
 			for pos := 0; pos < 3; pos++ {
 				do(c20cCase{Items: items, BodyLen: 5, Trailers: "none", Pos: pos, Dynamic: true})
